@@ -627,11 +627,13 @@ def run_backends(ctx, pts):
     """one worker process per backend (imports are slow and independent): returns dict 'backend/prec' -> values"""
     clean = dict((k, [{kk: vv for kk, vv in p.items() if kk in ('set', 'x', 'mu', 'sigma', 'n', 'lam')} for p in v]) for k, v in pts.items())
     procs = []
+    wf = os.path.join(ctx.work, 'worker.py')
+    with open(wf, 'w') as f:                      # written once, before any worker starts (a worker must never see it truncated)
+        f.write(WORKER % core.VERIF)
     for b in BACKENDS:
         jf, of = os.path.join(ctx.work, 'job_%s.json' % b), os.path.join(ctx.work, 'out_%s.json' % b)
-        json.dump(dict(pts=clean, settings=[[b, p] for p in PRECS]), open(jf, 'w'))
-        wf = os.path.join(ctx.work, 'worker.py')
-        open(wf, 'w').write(WORKER % core.VERIF)
+        with open(jf, 'w') as f:
+            json.dump(dict(pts=clean, settings=[[b, p] for p in PRECS]), f)
         procs.append((b, of, subprocess.Popen([os.environ.get('VERIF_PYTHON', '/venv/bin/python'), '-W', 'ignore', wf, jf, of],
                                               stdout=subprocess.PIPE, stderr=subprocess.STDOUT, text=True)))
     res = {}
